@@ -80,6 +80,21 @@ Definition ref_simple (i : instr) (s : list value) : outcome :=
   | I_UNPAIR => match s with VPair a b :: r => Done (a :: b :: r) | _ => Stuck end
   | I_CAR => match s with VPair a _ :: r => Done (a :: r) | _ => Stuck end
   | I_CDR => match s with VPair _ b :: r => Done (b :: r) | _ => Stuck end
+  | I_PAIRN n => if (2 <=? n) && (n <=? length s)
+                 then match v_comb (firstn n s) with Some v => Done (v :: skipn n s) | None => Stuck end
+                 else Stuck
+  | I_UNPAIRN n => match s with
+                   | v :: r => if 2 <=? n then match v_uncomb n v with Some l => Done (l ++ r) | None => Stuck end else Stuck
+                   | [] => Stuck
+                   end
+  | I_GETN k => match s with
+                | v :: r => match v_get_n k v with Some x => Done (x :: r) | None => Stuck end
+                | [] => Stuck
+                end
+  | I_UPDATEN k => match s with
+                   | x :: v :: r => match v_update_n k x v with Some y => Done (y :: r) | None => Stuck end
+                   | _ => Stuck
+                   end
   | I_LEFT _ => match s with a :: r => Done (VLeft a :: r) | _ => Stuck end
   | I_RIGHT _ => match s with a :: r => Done (VRight a :: r) | _ => Stuck end
   | I_SOME => match s with a :: r => Done (VSome a :: r) | _ => Stuck end
